@@ -474,6 +474,19 @@ func (c *Ctx) registryRules(r *Report, prefix string, only string) {
 			id, _ := constant.Int64Val(e.Key)
 			fn, _ := e.Val.(*ssa.Function)
 			if fn == nil {
+				// a stringifier made by a generator `fixedName(N)`: a module function whose only statement returns
+				// a closure over its parameter, the closure's only statement returning that captured value, called
+				// with a constant: the constant function N
+				if gen, ok := e.Val.(*ssa.Call); ok {
+					if f2, k := c.constantClosure(gen); f2 != nil {
+						r.Func(c.FuncName(f2))
+						trees[id] = []treePath{{Result: absVal{K: k}}}
+						fnOf[id] = f2
+						continue
+					}
+				}
+			}
+			if fn == nil {
 				r.undecided(ruleForeign, fmt.Sprintf("%s.%s[%d]", rs.Rel, rs.Strings, id), c.InstrPos(e.Site), "registry value is not a function")
 				continue
 			}
@@ -1358,4 +1371,67 @@ func isDynResult(v ssa.Value, dyn *ssa.Call) bool {
 		}
 	}
 	return seen
+}
+
+// constantClosure: call is G(..., K, ...) with G a module function `return func(...) T { return p }` over its
+// parameter p, and K a constant: the closure and the constant it returns for every argument.
+func (c *Ctx) constantClosure(call *ssa.Call) (*ssa.Function, constant.Value) {
+	g := call.Call.StaticCallee()
+	if g == nil || !c.InModule(g) || len(g.Blocks) != 1 {
+		return nil, nil
+	}
+	ret, ok := g.Blocks[0].Instrs[len(g.Blocks[0].Instrs)-1].(*ssa.Return)
+	if !ok || len(ret.Results) != 1 {
+		return nil, nil
+	}
+	mc, ok := ret.Results[0].(*ssa.MakeClosure)
+	if !ok || len(mc.Bindings) != 1 {
+		return nil, nil
+	}
+	f2, ok := mc.Fn.(*ssa.Function)
+	if !ok || len(f2.Blocks) != 1 || len(f2.FreeVars) != 1 {
+		return nil, nil
+	}
+	// the closure returns its captured variable (captured by reference: *fv) and does nothing else
+	instrs := f2.Blocks[0].Instrs
+	r2, ok := instrs[len(instrs)-1].(*ssa.Return)
+	if !ok || len(r2.Results) != 1 || len(instrs) > 2 {
+		return nil, nil
+	}
+	switch v := r2.Results[0].(type) {
+	case *ssa.FreeVar:
+	case *ssa.UnOp:
+		if _, isFV := v.X.(*ssa.FreeVar); !isFV {
+			return nil, nil
+		}
+	default:
+		return nil, nil
+	}
+	// the binding is the generator's parameter (or the cell it was copied into), written nowhere else
+	pi := -1
+	switch b := mc.Bindings[0].(type) {
+	case *ssa.Parameter:
+		pi = paramIndex(g, b)
+	case *ssa.Alloc:
+		n := 0
+		for _, ref := range *b.Referrers() {
+			if st, ok := ref.(*ssa.Store); ok && st.Addr == ssa.Value(b) {
+				n++
+				if p, ok := st.Val.(*ssa.Parameter); ok {
+					pi = paramIndex(g, p)
+				}
+			}
+		}
+		if n != 1 {
+			return nil, nil
+		}
+	}
+	if pi < 0 || pi >= len(call.Call.Args) {
+		return nil, nil
+	}
+	k, ok := call.Call.Args[pi].(*ssa.Const)
+	if !ok || k.Value == nil {
+		return nil, nil
+	}
+	return f2, k.Value
 }
